@@ -68,8 +68,9 @@ def build_traces(path, tier, seed):
     nrec = 40 if tier == "quick" else 240
     nmax = 1200 if tier == "quick" else 5000
     recs, meta = [], {}
-    for tid in range(1, nrec + 1):
-        n = gen.length(rng, 1, nmax)
+    nshort = 400 if tier == "quick" else 3000     # many short series: hysteresis (tol) corner cases are pattern-driven
+    for tid in range(1, nrec + nshort + 1):
+        n = gen.length(rng, 1, nmax) if tid <= nrec else int(rng.integers(1, 40))
         x = rand_series(rng, n)
         tol = float(rng.choice([0.3, 1.0, 2.5, rng.uniform(0.01, 3)]))
         arg = x if tid % 4 else x.tolist()
